@@ -30,7 +30,7 @@ CONSTANTS
   Locks,
   NoLock
 
-AllFields == {<<o, f>> : o \in Objects, f \in FieldsOf(o)}   \* only evaluated for finite Objects
+AllFields == UNION {{<<o, f>> : f \in FieldsOf(o)} : o \in Objects}
 
 (* ---- the rules themselves, on plain values (shared with the trace specification) ------------- *)
 (* a store is allowed before the object is published, or under the lock that protects the field   *)
@@ -54,7 +54,7 @@ SInit == [built   |-> {},
           running |-> {},
           held    |-> [t \in Threads |-> {}],
           seen    |-> [t \in Threads |-> {}],       \* <<o, f, value>> read since Start
-          out     |-> [t \in Threads |-> "none"],    \* result of the last finished transformation
+          out     |-> [t \in Threads |-> {}],        \* what the last finished transformation was computed from
           runs    |-> [t \in Threads |-> 0],
           races   |-> {},                             \* stores that broke the rule
           unguardedReads |-> {},
@@ -107,7 +107,7 @@ RaceFree(s) == s.races = {} /\ s.unguardedReads = {}
 
 (* what one thread alone reads from completely built objects: every used field, complete *)
 SeqOut(uses) == {<<of[1], of[2], "ok">> : of \in uses}
-OutputsSequential(s, uses) == \A t \in Threads : s.out[t] # "none" => OutputOK(s.out[t], SeqOut(uses))
+OutputsSequential(s, uses) == \A t \in Threads : s.runs[t] > 0 => OutputOK(s.out[t], SeqOut(uses))
 
 NoPostFreezeWrite(s) == s.postFreezeWrites = {}
 
